@@ -321,8 +321,10 @@ class FixedNoiseGaussianLikelihood(_GaussianLikelihoodBase):
             raise RuntimeError("FixedNoiseGaussianLikelihood.fantasize requires a `noise` kwarg")
         old_noise_covar = self.noise_covar
         self.noise_covar = None  # pyre-fixme[8]
-        fantasy_liklihood = deepcopy(self)
-        self.noise_covar = old_noise_covar
+        try:
+            fantasy_liklihood = deepcopy(self)
+        finally:
+            self.noise_covar = old_noise_covar
 
         old_noise = old_noise_covar.noise
         new_noise = kwargs.get("noise")
